@@ -65,7 +65,7 @@ def instances(ck):
     graphs = [(n, e) for n in range(0, 5) for e in gen.simple_graphs(n)]
     combos = [(g, t, s, p, k) for g in graphs for t, s, p in itertools.product((False, True), repeat=3)
               for k in (0, 2, 3) if not (s and (k or t))]
-    combos = rng.sample(combos, 300 if q else 1500)
+    combos = rng.sample(combos, min(len(combos), 300 if q else 1500))
     for (n, e), total, smart, plant, knuth in combos:
         add("gop-%d-%s-%d%d%d-%d" % (n, gen.gid(e), total, smart, plant, knuth), "gop",
             {"total": total, "smart": smart, "plant": plant, "knuth": knuth},
